@@ -508,7 +508,11 @@ theorem loop_of_value (e : FExpr) (hflat : flat e = (e, [])) (hat : Atom e) (hv 
 /-- The token list of an expression starts with a NUMBER, WORD or OPEN_PAREN token. -/
 theorem toksF_head : ∀ (e : FExpr) (ws : Layout), ∃ t r, toksF e ws = t :: r ∧
     (t.kind = .NUMBER ∨ t.kind = .WORD ∨ t.kind = .OPEN_PAREN)
-  | .lit l, ws => ⟨_, _, rfl, Or.inl rfl⟩
+  | .lit l, ws => by
+    simp only [toksF]
+    split
+    · exact ⟨_, _, rfl, Or.inl rfl⟩
+    · exact ⟨_, _, rfl, Or.inl rfl⟩
   | .fact f m, ws => ⟨_, _, rfl, Or.inr (Or.inl rfl)⟩
   | .bin op a b, ws => by
     obtain ⟨t, r, h, hk⟩ := toksF_head a ws
@@ -580,12 +584,19 @@ theorem op_of_loop (e : FExpr) (hl : LoopSpecF e) : OpSpecF e := by
 
 theorem value_litF (l : Spec.Decimal.Literal) : ValueSpecF (.lit l) := by
   refine ⟨2, ?_⟩
-  intro ws s W0 K _ _ hg ht hw0 hK
-  simp only [toksF, List.cons_append, List.nil_append] at ht
-  refine tot_mono (value_num 0 W0 _ K ht hw0 hK hg)
-    fun r s' ⟨cur, Wt, id, id', hr, ht', hf', hWt, hlen, hpos, g', n', e'⟩ => ?_
-  refine ⟨cur, Wt, _, hr, ht', hf', hWt, .num rfl rfl ?_, hlen ▸ hpos, g', n', e'⟩
-  simp [Tree.text, Tree.textList]
+  intro ws s W0 K _ hlay hg ht hw0 hK
+  by_cases hp : l.percent = true
+  · simp only [toksF, hp, ↓reduceIte, List.append_assoc, List.cons_append, List.nil_append] at ht
+    refine tot_mono (value_pct 1 W0 _ (blankTok (blank1 ws)) ⟨.PERCENTAGE, ['%']⟩ K ht hw0
+      (allWS_blankTok _) rfl hg)
+      fun r s' ⟨cur, Wt, id, id', more, hr, ht', hf', hWt, hlen, hpos, g', n', e'⟩ => ?_
+    exact ⟨cur, Wt, _, hr, ht', hf', hWt, .pct rfl rfl hp, hlen ▸ hpos, g', n', e'⟩
+  · have hp' : l.percent = false := by simpa using hp
+    simp only [toksF, hp', Bool.false_eq_true, ↓reduceIte, List.cons_append, List.nil_append] at ht
+    refine tot_mono (value_num 0 W0 _ K ht hw0 hK hg)
+      fun r s' ⟨cur, Wt, id, id', hr, ht', hf', hWt, hlen, hpos, g', n', e'⟩ => ?_
+    refine ⟨cur, Wt, _, hr, ht', hf', hWt, .num rfl rfl hp' ?_, hlen ▸ hpos, g', n', e'⟩
+    simp [Tree.text, Tree.textList]
 
 theorem value_factF (first : List Char) (more : More) : ValueSpecF (.fact first more) := by
   refine ⟨more.length + 1 + 1, ?_⟩
